@@ -8,7 +8,8 @@ open Tmv.Pipeline
 def callName : Eff → String
   | .initChain => "InitChainSync"
   | .saveGenesis => "Save"
-  | .signVote _ => "signVote"
+  | .signVote _ _ => "signVote"
+  | .pvSign _ _ => "pvSign"
   | .saveBlock _ => "SaveBlock"
   | .walEnd _ => "WriteSync"
   | .begin _ => "BeginBlockSync"
@@ -24,8 +25,8 @@ theorem finalize_order :
     Facts.c05_finalize_order = ["SaveBlock", "WriteSync", "ApplyBlock", "updateToState"] := by decide
 
 theorem model_finalize_prefix :
-    ((finalizeEffs (fun _ => []) { genesisSaved := true } 1).getD []).map callName
-      = ["signVote"] ++ Facts.c05_finalize_order.take 2 ++
+    ((finalizeEffs { txs := fun _ => [] } { genesisSaved := true } 1).getD []).map callName
+      = ["signVote", "signVote"] ++ Facts.c05_finalize_order.take 2 ++
           Facts.c05_exec_order.take 1 ++ Facts.c05_exec_order.drop 2 ++
           ["SaveABCIResponses", "CommitSync", "Save"] := by decide
 
@@ -35,7 +36,7 @@ theorem applyBlock_order : Facts.c05_applyBlock_order =
 
 /-- the model's `applyBlockReal` is that order with `execBlockOnProxyApp` and `Commit` expanded -/
 theorem model_applyBlock_order :
-    (applyBlockReal (fun _ => [5]) 1).map callName
+    (applyBlockReal { txs := fun _ => [5] } 1).map callName
       = Facts.c05_exec_order ++ ["SaveABCIResponses"] ++ [(Facts.c05_commit_order.getD 2 "")] ++ ["Save"] := by decide
 
 /-- `BlockExecutor.Commit`: mempool Lock, FlushAppConn, app CommitSync, mempool Update (the
@@ -47,7 +48,7 @@ theorem exec_order : Facts.c05_exec_order = ["BeginBlockSync", "DeliverTxAsync",
 theorem execCommit_order : Facts.c05_execCommit_order = ["execBlockOnProxyApp", "CommitSync"] := by decide
 
 theorem model_execCommit_order :
-    (execCommit (fun _ => [5]) 1).map callName = Facts.c05_exec_order ++ Facts.c05_execCommit_order.drop 1 := by decide
+    (execCommit { txs := fun _ => [5] } 1).map callName = Facts.c05_exec_order ++ Facts.c05_execCommit_order.drop 1 := by decide
 
 /-- `ReplayBlocks`: InitChain iff the application reports height 0; state touched only at height 0;
 the store = state / store = state + 1 split; the mock branch reads the last saved responses. -/
@@ -57,6 +58,11 @@ theorem replay_store_eq_state : Facts.c05_replay_store_eq_state = "storeBlockHei
 theorem replay_mock_loads_last_resp : Facts.c05_replay_mock_loads_last_resp = true := by decide
 theorem replay_app_ahead_case : Facts.c05_replay_app_ahead_case = true := by decide
 theorem replay_store_ahead_case : Facts.c05_replay_store_ahead_case = true := by decide
+
+/-- as repaired (9a8fd87): the height after the state is the genesis InitialHeight for an empty
+state (model: `nxt`), used both for the store-ahead panic and for the store = state + 1 branch -/
+theorem replay_next_is_initial_height : Facts.c05_replay_next_is_initial_height = true := by decide
+theorem replay_store_next_case : Facts.c05_replay_store_next_case = true := by decide
 
 /-- the repaired `catchupReplay` writes the missing #ENDHEIGHT (model: `startEffs`); without it
 `recovery_progress` / `signed_vote_is_replayable` are false of the code. -/
@@ -78,5 +84,47 @@ theorem v1_check_order :
     Facts.c05_v1_check_order = ["RLock", "RUnlock", "CheckTxSync", "addNewTransaction"] := by decide
 theorem v1_flush_unlocks : Facts.c05_v1_flush_unlocks = true := by decide
 theorem v1_recheck_in_goroutine : Facts.c05_v1_recheck_in_goroutine = true := by decide
+
+/-! ## fail points: the model's incarnation plan has the `fail.Fail()` call sites where the code has
+them (facts: every occurrence, in source order, of `fail.Fail` and of the effectful calls) -/
+
+def itemName : Item → String
+  | .fail => "fail.Fail"
+  | .eff (.begin _) => "execBlockOnProxyApp"
+  | .eff (.deliver _ _) => "execBlockOnProxyApp"
+  | .eff (.endBlock _) => "execBlockOnProxyApp"
+  | .eff (.saveResp _) => "SaveABCIResponses"
+  | .eff .appCommit => "Commit"
+  | .eff (.saveState _) => "Save"
+  | .eff e => callName e
+
+/-- consecutive effects of one call collapse to its name -/
+def dedupAdj : List String → List String
+  | a :: b :: r => if a = b ∧ a ≠ "fail.Fail" then dedupAdj (b :: r) else a :: dedupAdj (b :: r)
+  | l => l
+
+theorem failseq_apply : Facts.c05_failseq_apply =
+    ["execBlockOnProxyApp", "fail.Fail", "SaveABCIResponses", "fail.Fail", "Commit", "fail.Fail", "Save", "fail.Fail"] := by
+  decide
+
+theorem failseq_finalize : Facts.c05_failseq_finalize =
+    ["fail.Fail", "SaveBlock", "fail.Fail", "WriteSync", "fail.Fail", "ApplyBlock", "fail.Fail", "updateToState", "fail.Fail"] := by
+  decide
+
+/-- `planApplyReal` = ApplyBlock's call sites -/
+theorem model_plan_apply :
+    dedupAdj ((planApplyReal { txs := fun _ => [5, 6] } 1).map itemName) = Facts.c05_failseq_apply := by decide
+
+/-- the commit part of `planHeight` = finalizeCommit's call sites with ApplyBlock's spliced in
+(`updateToState` has no persistent effect) -/
+theorem model_plan_finalize :
+    dedupAdj (((planHeight { txs := fun _ => [5] } 0 0 0 1).drop 4).map itemName) =
+      Facts.c05_failseq_finalize.flatMap (fun n =>
+        if n = "ApplyBlock" then Facts.c05_failseq_apply else if n = "updateToState" then [] else [n]) := by decide
+
+/-- the mock replay passes the same four fail points of ApplyBlock -/
+theorem model_plan_mock_fail_count :
+    ((planApplyMock 1).filter fun i => match i with | .fail => true | _ => false).length =
+      (Facts.c05_failseq_apply.filter (· = "fail.Fail")).length := by decide
 
 end Tmv.Expect.C05
